@@ -43,9 +43,10 @@ LEVEL_NOTE = ("unbounded machine-checked proof (rebuild = fresh render, for ever
               "history) for text (String, &str, i32), unit, elements with id/hidden/class/class:on/style attributes, "
               "tuples, arrays, Either, EitherOf3, Option, Vec and AnyView type changes; node-less views (StaticVec / "
               "Fragment, empty array: F-C03-ab) and exactly the failing class:on sub-case (F-C03-c, predicate compat) "
-              "are excluded by hypotheses and refuted by three proved witnesses; keyed lists: the model runs C11's "
-              "proved diff/apply_diff with the item views as builder and is compared with the implementation, the "
-              "keyed case of the C03 induction is not proved yet (C11 proves the list itself); the link between the "
+              "are excluded by hypotheses and refuted by three proved witnesses; keyed lists are part of the induction: "
+              "the model runs C11's diff/apply_diff with the item views as builder and the keyed case is proved "
+              "from C11's keyed_rebuild_ok / rebuild_items (hypothesis: a retained row shows what its item view "
+              "shows, which is how tachys treats keys); the link between the "
               "compared serialisation and the content function cs is proved (C03_serialisation_is_cs). Not in the "
               "grammar: Result/ErrorBoundary, EitherKeepAlive, inner_html, prop: (needs a JS value), templates")
 TECHNIQUE = "Coq proof of an executable model + differential correspondence on the native DOM hook"
